@@ -113,7 +113,7 @@ impl<'a> Ctx<'a> {
     }
     fn bodiless_method(&self, i: usize) -> bool {
         let m = self.reqs[i].method.as_str();
-        m == "HEAD" || m == "OPTIONS"
+        self.wellformed_req(i) && (m == "HEAD" || m == "OPTIONS")
     }
     /// the response is one complete message: head, and a body as long as Content-Length says
     fn complete(&self, i: usize) -> Result<(), String> {
@@ -446,7 +446,9 @@ fn wellformed_verdicts(cx: &Ctx, i: usize, o: &mut Outcome) {
             o.verdicts.push(v("C05", format!("framing_header_twice.{}", name), format!("request {:?}: {} appears {} times", req_txt, name, resp.count(name)), Some(i)));
         }
     }
-    let method = cx.reqs[i].method.as_str();
+    // the method only counts when the server could read it: an unparsable request is
+    // answered as such, whatever its first word was
+    let method = if cx.wellformed_req(i) { cx.reqs[i].method.as_str() } else { "" };
     let cl = resp.get("Content-Length").map(|x| x.trim().parse::<usize>());
     if method == "HEAD" || method == "OPTIONS" {
         if !resp.body.is_empty() {
@@ -849,7 +851,9 @@ fn c02(cx: &Ctx, o: &mut Outcome) {
 // ------------------------------------------------------------------------------------------- C03
 
 /// Is (label, bytes) a correctly labelled slice of `file`? Err = (kind, explanation).
-fn check_slice(resp_label: &str, body: &[u8], file: &[u8]) -> Result<(u64, u64), (&'static str, String)> {
+/// Ok carries the offsets of the bytes actually sent and, when the label's last offset is one
+/// past the last byte sent (the exclusive-end convention), the explanation of that defect.
+fn check_slice(resp_label: &str, body: &[u8], file: &[u8]) -> Result<(u64, u64, Option<String>), (&'static str, String)> {
     let (a, b, size) = wire::parse_content_range(resp_label).ok_or_else(|| ("unparsable_label", format!("unparsable Content-Range {:?}", resp_label)))?;
     let l = file.len() as u64;
     if size != Some(l) {
@@ -857,7 +861,11 @@ fn check_slice(resp_label: &str, body: &[u8], file: &[u8]) -> Result<(u64, u64),
     }
     let n = body.len() as u64;
     if b == a + n && a + n <= l && body == &file[a as usize..(a + n) as usize] {
-        return Err(("label_end_one_past_last_byte", format!("Content-Range {:?} names bytes {}-{} but the {} bytes sent are those at {}-{}: the last offset of the label is one past the last byte", resp_label, a, b, n, a, (a + n) as i128 - 1)));
+        let why = format!("Content-Range {:?} names bytes {}-{} but the {} bytes sent are those at {}-{}: the last offset of the label is one past the last byte", resp_label, a, b, n, a, (a + n) as i128 - 1);
+        if n == 0 {
+            return Err(("label_end_one_past_last_byte", why));
+        }
+        return Ok((a, a + n - 1, Some(why)));
     }
     if a > b || b >= l {
         return Err(("label_outside_file", format!("Content-Range {:?} names offsets outside the file of {} bytes", resp_label, l)));
@@ -868,7 +876,7 @@ fn check_slice(resp_label: &str, body: &[u8], file: &[u8]) -> Result<(u64, u64),
     if body != &file[a as usize..=b as usize] {
         return Err(("bytes_from_other_offsets", format!("the bytes sent are not the bytes at offsets {}-{}", a, b)));
     }
-    Ok((a, b))
+    Ok((a, b, None))
 }
 
 fn c03(cx: &Ctx, o: &mut Outcome) {
@@ -931,9 +939,15 @@ fn c03(cx: &Ctx, o: &mut Outcome) {
                                     o.verdicts.push(v("C03", format!("in_file.{}.{}", shape, kind), format!("{}: part {}: {}", ctx_txt, k, e), Some(i)));
                                     break;
                                 }
-                                Ok((a, b)) => {
+                                Ok((a, b, excl)) => {
+                                    let shape = range_shape(&range, k);
+                                    if let Some(why) = excl {
+                                        let class = format!("in_file.{}.label_end_one_past_last_byte", shape);
+                                        if !o.verdicts.iter().any(|x| x.class == class && x.conn == Some(i)) {
+                                            o.verdicts.push(v("C03", class, format!("{}: part {}: {}", ctx_txt, k, why), Some(i)));
+                                        }
+                                    }
                                     if (a, b) != want[k] {
-                                        let shape = range_shape(&range, k);
                                         o.verdicts.push(v("C03", format!("in_file.{}.other_offsets", shape), format!("{}: part {} carries bytes {}-{}, requested {}-{}", ctx_txt, k, a, b, want[k].0, want[k].1), Some(i)));
                                         break;
                                     }
@@ -974,7 +988,13 @@ fn c03(cx: &Ctx, o: &mut Outcome) {
                                     o.verdicts.push(v("C03", format!("{}.{}.{}", cname, shape, kind), format!("{}: part {}: {}", ctx_txt, k, e), Some(i)));
                                     break;
                                 }
-                                Ok((a, b)) => {
+                                Ok((a, b, excl)) => {
+                                    if let Some(why) = excl {
+                                        let class = format!("{}.{}.label_end_one_past_last_byte", cname, range_shape(&range, k));
+                                        if !o.verdicts.iter().any(|x| x.class == class && x.conn == Some(i)) {
+                                            o.verdicts.push(v("C03", class, format!("{}: part {}: {}", ctx_txt, k, why), Some(i)));
+                                        }
+                                    }
                                     if let RangeClass::Outside(w) = &cls {
                                         if ps.len() == w.len() {
                                             match w[k] {
